@@ -504,7 +504,7 @@ func NewCache(options Options) (Cache, error) {
 	if _, err := cch.checkPerm("cache", cch.filePath, false, cacheFilePerm); err != nil {
 		return nil, cacheError("refusing to use existing cache file: %v", err)
 	}
-	if err := cch.mkdirAll("cache", options.CacheDir, cacheDirPerm); err != nil {
+	if err := cch.mkdirAll("cache", filepath.Clean(options.CacheDir), cacheDirPerm); err != nil {
 		return nil, err
 	}
 	if err := cch.mkdirAll("container", cch.dataDir, dataDirPerm); err != nil {
